@@ -84,6 +84,7 @@ theorem safe_R {s s' : State} {t r : Nat} {q : RPC} {p : PC} (ha : InvA s) (hs :
 theorem rFact_mono_S {c c' : Core} (hn : c'.nextCell = c.nextCell) (hrv : c'.resv = c.resv)
     (hcl : c'.rclosed = c.rclosed) (hcur : c'.cur = c.cur) (hc0 : c'.c0 = c.c0) (hgot : c'.got = c.got)
     (hdata : c'.data = c.data) (hsent : ∃ e, c'.sent = c.sent ++ e) (hhead : c.head ≤ c'.head)
+    (hpd : c.pdropped = true → c'.pdropped = true ∧ c'.head = c.head)
     {u r : Nat} {q : RPC} (h : rFact c u r q) : rFact c' u r q := by
   obtain ⟨e, he⟩ := hsent
   cases q with
@@ -97,6 +98,12 @@ theorem rFact_mono_S {c c' : Core} (hn : c'.nextCell = c.nextCell) (hrv : c'.res
     rw [List.drop_append_of_le_length (by omega), List.take_append_of_le_length (by simp; omega)]
     exact h.2.2.2
   | bVals x k n => simp only [rFact, rBase, hn, hrv, hcl, hcur] at *; exact ⟨h.1, h.2.1, by omega⟩
+  | eLock x k =>
+    simp only [rFact, rBase, hn, hrv, hcl, hcur] at *
+    exact ⟨h.1, h.2.1, (hpd h.2.2.1).1, by have := h.2.2.2; rw [(hpd h.2.2.1).2]; omega⟩
+  | eUnlock x k =>
+    simp only [rFact, rBase, hn, hrv, hcl, hcur] at *
+    exact ⟨h.1, h.2.1, (hpd h.2.2.1).1, by have := h.2.2.2; rw [(hpd h.2.2.1).2]; omega⟩
   | _ => simp_all [rFact, rBase]
 
 
@@ -108,7 +115,7 @@ def AgreeAt (c c' : Core) (x : Nat) : Prop :=
 (and cells allocated by the step) -/
 theorem rFact_ext {c c' : Core} (ex : Nat → Prop) (hg : GFact c) (hn : c.nextCell ≤ c'.nextCell)
     (hmaps : ∀ x, ¬ ex x → x < c.nextCell → AgreeAt c c' x)
-    (hsent : c'.sent = c.sent) (hhead : c'.head = c.head)
+    (hsent : c'.sent = c.sent) (hhead : c'.head = c.head) (hpd : c'.pdropped = c.pdropped)
     (hdata : ∀ i x, ¬ ex x → x ∈ c.data i → x ∈ c'.data i)
     {u r : Nat} {q : RPC} (hr : ¬ ex r) (hcl : ∀ n, c.resv n = some u → ¬ ex n)
     (h : rFact c u r q) : rFact c' u r q := by
@@ -143,6 +150,12 @@ theorem rFact_ext {c c' : Core} (ex : Nat → Prop) (hg : GFact c) (hn : c.nextC
   | rVal x k => simp only [rFact, rBase] at *; rw [a1, a4, a5, hsent]; exact ⟨⟨by omega, h.1.2.1, h.1.2.2⟩, h.2⟩
   | rSt x k vs => simp only [rFact, rBase] at *; rw [a1, a4, a5, hsent]; exact ⟨⟨by omega, h.1.2.1, h.1.2.2⟩, h.2⟩
   | bVals x k n => simp only [rFact, rBase] at *; rw [a1, a4, a5, hhead]; exact ⟨⟨by omega, h.1.2.1, h.1.2.2⟩, h.2⟩
+  | rHead x k => simp only [rFact, rBase] at *; rw [a1, a4, a5, hpd]; exact ⟨⟨by omega, h.1.2.1, h.1.2.2⟩, h.2⟩
+  | bHd2 x k => simp only [rFact, rBase] at *; rw [a1, a4, a5, hpd]; exact ⟨⟨by omega, h.1.2.1, h.1.2.2⟩, h.2⟩
+  | eHead x => simp only [rFact, rBase] at *; rw [a4, a5, hpd]; exact ⟨⟨by omega, h.1.2.1, h.1.2.2⟩, h.2⟩
+  | eCur x h0 => simp only [rFact, rBase] at *; rw [a4, a5, hpd, hhead]; exact ⟨⟨by omega, h.1.2.1, h.1.2.2⟩, h.2⟩
+  | eLock x k => simp only [rFact, rBase] at *; rw [a1, a4, a5, hpd, hhead]; exact ⟨⟨by omega, h.1.2.1, h.1.2.2⟩, h.2⟩
+  | eUnlock x k => simp only [rFact, rBase] at *; rw [a1, a4, a5, hpd, hhead]; exact ⟨⟨by omega, h.1.2.1, h.1.2.2⟩, h.2⟩
   | _ =>
     simp only [rFact, rBase] at *
     first
@@ -157,11 +170,13 @@ theorem sFact_mono_R {c c' : Core} (hcap : c'.cap = c.cap) (hhead : c'.head = c.
     {q : SPC} (h : sFact c q) : sFact c' q := by
   cases q with
   | sScan k h0 i done todo m =>
-    simp only [sFact, hcap, hhead, hsent, hdirty, hlim] at *
+    simp only [sFact, idleLike, hcap, hhead, hsent, hdirty, hlim, hscl] at *
     obtain ⟨f1, f2, f3, f4, f5, f6⟩ := h
     refine ⟨f1, f2, f3, fun r hr => by have := f4 r hr; omega, ?_, f6⟩
-    intro v hv r hr
-    have := f5 v hv r hr; have := hcur r (f4 r hr); omega
-  | _ => simp only [sFact, hcap, hhead, hsent, hdirty, hlim, hseq, hval, hscl] at *; exact h
+    intro v hv
+    refine ⟨?_, (f5 v hv).2⟩
+    intro r hr
+    have := (f5 v hv).1 r hr; have := hcur r (f4 r hr); omega
+  | _ => simp only [sFact, idleLike, hcap, hhead, hsent, hdirty, hlim, hseq, hval, hscl] at *; exact h
 
 end Fv.Chan.SpmcB
